@@ -406,6 +406,7 @@ void h_alloc(void) {
         XV_OBL("hp.alloc.k_available", r == pre_hint && slots_unchanged_except(0) && gh_acquire_entry_calls == 0);
         XV_OBL("hp.alloc.k_available", local_thread_data.hint == xv_w2p(SV_get(pre_val[CL(slot_index(r))])));
         XV_CANARY("alloc.from_chain");
+        if (SV_get(pre_val[CL(slot_index(r))]) != 0 && word_index(SV_get(pre_val[CL(slot_index(r))])) < slot_index(r)) XV_CANARY2("alloc.chain_not_in_index_order");   /* the builder really permutes */
       } else {
         XV_OBL("hp.alloc.k_available", r == SLOT(0) && gh_acquire_entry_calls == 1 && local_thread_data.control_block == &the_cb);
         XV_CANARY("alloc.first_of_thread");
